@@ -18,7 +18,7 @@ def _files(with_ecdsa):
     fl += [os.path.join(pdir, "__init__.py")] + sorted(glob.glob(os.path.join(pdir, "pyaes", "*.py")))
     if with_ecdsa:
         fl += [os.path.join(pdir, "ecdsa", n) for n in ("ellipticcurve.py", "numbertheory.py", "keys.py",
-                                                        "ecdsa.py", "ecdh.py", "util.py", "der.py")]
+                                                        "ecdsa.py", "ecdh.py", "util.py", "der.py", "curves.py")]
     return fl
 
 
@@ -55,7 +55,8 @@ def shallow_files():
     base = os.path.dirname(env.bec2format.__file__)
     pdir = os.path.dirname(env.plugin.__file__)
     return set(glob.glob(os.path.join(base, "*.py"))) | {os.path.join(pdir, "__init__.py"),
-                                                          os.path.join(pdir, "ecdsa", "ecdh.py")}
+                                                          os.path.join(pdir, "ecdsa", "ecdh.py"),
+                                                          os.path.join(pdir, "ecdsa", "curves.py")}
 
 
 def run_conc(make_bodies, preempt, choices, with_ecdsa=False, first=None, max_steps=3_000_000):
